@@ -38,6 +38,9 @@ pub struct Spec {
     pub force_implicit: bool,
     /// false: outputs next to the grammar; true: separate out dirs
     pub out_dirs: bool,
+    /// with out_dirs: 0 = both `-o` and `-a`, 1 = only `-o` (actions stay next
+    /// to the grammar), 2 = only `-a` (the parser stays next to the grammar)
+    pub out_only: u8,
     /// side outputs that must not influence the two files
     pub dot: bool,
     pub trace: bool,
@@ -66,6 +69,7 @@ impl Spec {
             force: true,
             force_implicit: false,
             out_dirs: false,
+            out_only: 0,
             dot: false,
             trace: false,
             print_table: false,
@@ -107,12 +111,20 @@ impl Spec {
         s.skip_ws = rng.chance(4, 5);
         s.actions = rng.chance(9, 10);
         s.out_dirs = rng.chance(1, 2);
+        s.out_only = if s.out_dirs { *rng.pick(&[0u8, 0, 1, 2]) } else { 0 };
         s.force = rng.chance(2, 3);
         s.force_implicit = !s.force && !s.out_dirs && s.builder == 0 && rng.chance(1, 2);
         s.dot = rng.chance(1, 8);
         s.trace = rng.chance(1, 10);
         s.print_table = rng.chance(1, 10);
         s
+    }
+
+    pub fn parser_in_out(&self) -> bool {
+        self.out_dirs && self.out_only != 2
+    }
+    pub fn actions_in_out(&self) -> bool {
+        self.out_dirs && self.out_only != 1
     }
 
     pub fn table_type(&self) -> TableType {
@@ -137,7 +149,15 @@ impl Spec {
         });
         if self.out_dirs {
             if !env_defaults {
-                s = s.root_dir(root.to_path_buf()).out_dir_root(out.to_path_buf()).out_dir_actions_root(out_act.to_path_buf());
+                s = s.root_dir(root.to_path_buf());
+                s = match self.out_only {
+                    0 => s.out_dir_root(out.to_path_buf()).out_dir_actions_root(out_act.to_path_buf()),
+                    1 => {
+                        let s = s.out_dir_root(out.to_path_buf());
+                        if self.builder == 0 { s.actions_in_source_tree() } else { s }
+                    }
+                    _ => s.in_source_tree().out_dir_actions_root(out_act.to_path_buf()),
+                };
             }
         } else {
             s = s.root_dir(root.to_path_buf()).in_source_tree();
@@ -193,10 +213,14 @@ impl Spec {
             a.push("--trace".into());
         }
         if self.out_dirs {
-            a.push("-o".into());
-            a.push(out.to_string_lossy().into());
-            a.push("-a".into());
-            a.push(out_act.to_string_lossy().into());
+            if self.out_only != 2 {
+                a.push("-o".into());
+                a.push(out.to_string_lossy().into());
+            }
+            if self.out_only != 1 {
+                a.push("-a".into());
+                a.push(out_act.to_string_lossy().into());
+            }
         }
         if self.glr {
             a.push("--parser-algo".into());
@@ -264,7 +288,7 @@ impl Spec {
             "prefer_shifts_over_empty": self.prefer_shifts_over_empty,
             "most_specific": self.most_specific, "longest_match": self.longest_match,
             "grammar_order": self.grammar_order, "partial": self.partial, "skip_ws": self.skip_ws,
-            "actions": self.actions, "force": self.force, "force_implicit": self.force_implicit, "out_dirs": self.out_dirs,
+            "actions": self.actions, "force": self.force, "force_implicit": self.force_implicit, "out_dirs": self.out_dirs, "out_only": self.out_only,
             "dot": self.dot, "trace": self.trace, "print_table": self.print_table,
         })
     }
@@ -292,6 +316,7 @@ impl Spec {
             force: b("force")?,
             force_implicit: b("force_implicit").unwrap_or(false),
             out_dirs: b("out_dirs")?,
+            out_only: n("out_only").unwrap_or(0),
             dot: b("dot")?,
             trace: b("trace")?,
             print_table: b("print_table")?,
@@ -318,6 +343,9 @@ impl Spec {
                 s.push('+');
                 s.push_str(n);
             }
+        }
+        if self.out_dirs && self.out_only != 0 {
+            s.push_str(if self.out_only == 1 { "(-o only)" } else { "(-a only)" });
         }
         if self.input_type != "str" {
             s.push_str("+in=");
